@@ -7,6 +7,8 @@
 -/
 import SonicSpec.Generated.Bounds
 import SonicSpec.Generated.Consts
+import SonicSpec.Model.Robust
+import SonicSpec.Proofs.Robust
 set_option linter.unusedSimpArgs false
 namespace SonicSpec.Props.C07
 open SonicSpec.Gen
@@ -62,5 +64,152 @@ theorem budgets_positive : 0 < maxRecurse ∧ 0 < decMaxStack ∧ 0 < encMaxStac
 example : calcBounds 100 50 = (34, 16, 66, 15) := by decide
 example : calcBounds 2 6 = (0, 0, 2, 0) := by decide
 example : (0 : Int) ≤ 50 ∧ (50 : Int) < 100 := by decide
+
+/-! ## error formatters around the excerpt arithmetic (Model/Robust.lean: hand transliteration of the
+    slice / index / Repeat expressions; the arithmetic itself is the regenerated code) -/
+open SonicSpec.Robust SonicSpec.Proofs.Robust
+
+/-- decoder `SyntaxError.Error/Description` never panics, whatever `Pos` and `Src` are -/
+theorem syntaxError_description_safe (size pos : Int) (hs : 0 ≤ size) :
+    decDescription size pos ≠ Fmt.panic := by
+  have h := calcBounds_safe size pos hs
+  simp only [] at h
+  unfold decDescription compose sliceOk repeatOk
+  split
+  · simp
+  · rw [if_pos]
+    · simp
+    · simp only [Bool.and_eq_true, decide_eq_true_eq]
+      omega
+
+/-- `MismatchTypeError.Error/Description` panic EXACTLY when `Pos` is not an index of `Src`
+    (`swithchJSONType` indexes `src[pos]` unguarded, errors.go:145) -/
+theorem mismatch_description_panics_iff (size pos : Int) (hs : 0 ≤ size) :
+    mismatchFmt size pos = Fmt.panic ↔ ¬ (0 ≤ pos ∧ pos < size) := by
+  unfold mismatchFmt
+  constructor
+  · intro h hc
+    rw [if_pos (by simp only [Bool.and_eq_true, decide_eq_true_eq]; exact hc)] at h
+    exact syntaxError_description_safe size pos hs h
+  · intro hc
+    rw [if_neg (by simp only [Bool.and_eq_true, decide_eq_true_eq]; exact hc)]
+
+/-- partial safety (the full statement "for every Pos" is false, see the witness): a mismatch error whose
+    position is an index of its source formats without panic -/
+theorem mismatch_description_safe_partial (size pos : Int) (h0 : 0 ≤ pos) (h1 : pos < size) :
+    mismatchFmt size pos ≠ Fmt.panic := by
+  intro h
+  exact ((mismatch_description_panics_iff size pos (by omega)).1 h) ⟨h0, h1⟩
+
+/-- witness: `Pos = len(Src)` (an end-of-input position) makes `MismatchTypeError.Error()` panic -/
+theorem mismatch_description_unsafe_witness : mismatchFmt 2 2 = Fmt.panic := by decide
+
+/-- ast `SyntaxError.Error/Description` panic EXACTLY for a short source (≤ 32 bytes) and a position more
+    than 16 past its end -/
+theorem astDescription_panics_iff (size pos : Int) (hs : 0 < size) :
+    astDescription size pos = Fmt.panic ↔ (size ≤ 32 ∧ size + 16 < pos) := by
+  unfold astDescription
+  rw [if_neg (by simp only [beq_iff_eq]; omega), compose_panic_iff]
+  have h := astBounds_char size pos hs
+  simp only [] at h
+  rw [h]
+  exact Classical.not_not
+
+/-! ## encoder state stack (vars/stack.go, vm.go OP_save/OP_load/OP_drop/OP_drop_2) -/
+
+/-- `depth_error_not_crash` (encoder budget): on every trace of stack operations that respects the
+    compiler's save/drop bracketing, with the REGENERATED limits `MaxStack`/`StateSize`, no `State` is
+    ever read or written outside `Stack.sb`: the run ends normally or with the ordinary error
+    `ERR_too_deep`.  (The decoder value stack and the native FSM budget are machine code: tied by the
+    deep-nesting correspondence streams only; `budgets_positive` covers their constants.) -/
+theorem depth_error_not_crash (ops : List SOp) (hb : bracketed 0 ops = true) :
+    run encM encS 0 ops ≠ SRes.oob := by
+  have h := run_bracketed encM encS (by decide) ops 0 (Nat.zero_le _) hb
+  rw [Nat.zero_mul] at h
+  rcases h with h | ⟨d', _, h⟩ <;> rw [h] <;> simp
+
+/-- the budget is exact: `n` nested saves succeed iff `n ≤ MaxStack`; one more is the error -/
+theorem depth_budget_exact (n : Nat) :
+    run encM encS 0 (List.replicate n SOp.save) =
+      if n ≤ encM then SRes.ok (n * encS) else SRes.tooDeep := by
+  have key : ∀ k d, d ≤ encM → run encM encS (d * encS) (List.replicate k SOp.save) =
+      if d + k ≤ encM then SRes.ok ((d + k) * encS) else SRes.tooDeep := by
+    intro k
+    induction k with
+    | zero => intro d hd; simp [run, hd]
+    | succ k ih =>
+      intro d hd
+      by_cases hlt : d < encM
+      · have h1 : ¬ (d * encS ≥ encM * encS) := by
+          have := Nat.mul_lt_mul_of_lt_of_le hlt (Nat.le_refl encS) (by decide)
+          omega
+        have h2 : d * encS + encS ≤ encM * encS := by
+          have := Nat.mul_le_mul_right encS (Nat.succ_le_of_lt hlt)
+          rw [Nat.succ_mul] at this; exact this
+        simp only [List.replicate_succ, run, step, push, if_neg h1, if_pos h2]
+        rw [← Nat.succ_mul, ih (d + 1) hlt]
+        have : d + 1 + k = d + (k + 1) := by omega
+        rw [this]
+      · have hd' : d = encM := by omega
+        subst hd'
+        simp only [List.replicate_succ, run, step, push, ge_iff_le, Nat.le_refl, if_true]
+        rw [if_neg (by omega)]
+  have := key n 0 (Nat.zero_le _)
+  simpa using this
+
+/-! ## stream decoder progress (stream.go `Decode`/`More`/`peek`; reader chunking abstracted) -/
+
+/-- NEGATION witness of "success implies progress": with a `]` or `}` next in the stream, every one of `n`
+    consecutive `Decode` calls returns nil and leaves the decoder exactly where it was - for every `n`, every
+    rest of the stream and whatever the value decoder does (replayed: `crash streamall 5d`) -/
+theorem stream_no_progress_witness (skip : List UInt8 → Option Nat) (c : UInt8) (hc : isCloser c = true)
+    (rest : List UInt8) (n : Nat) :
+    decodeN skip n { rest := c :: rest, err := false } =
+      (List.replicate n DRes.ok, { rest := c :: rest, err := false }) := by
+  have hsp : isSpace c = false := by
+    simp only [isCloser, Bool.or_eq_true, beq_iff_eq] at hc
+    rcases hc with h | h <;> subst h <;> decide
+  have h1 : decode skip { rest := c :: rest, err := false } = (DRes.ok, { rest := c :: rest, err := false }) := by
+    simp [decode, dropSpace, hsp, hc]
+  induction n with
+  | zero => rfl
+  | succ n ih => simp only [decodeN, h1, ih, List.replicate_succ]
+
+/-- partial `decode_progress` (the full statement is false, see the witness): when the next non-blank byte is
+    not a closer, a successful `Decode` consumes at least one byte (given that a decoded value has ≥ 1 byte) -/
+theorem stream_progress_partial (skip : List UInt8 → Option Nat) (hskip : ∀ b n, skip b = some n → 0 < n)
+    (s s' : SD) (h : decode skip s = (DRes.ok, s'))
+    (hnc : ∀ c r, dropSpace s.rest = c :: r → isCloser c = false) :
+    s'.rest.length < s.rest.length := by
+  unfold decode at h
+  split at h
+  · simp at h
+  · split at h
+    · simp at h
+    · rename_i c r heq
+      rw [hnc c r heq] at h
+      simp only [Bool.false_eq_true, if_false] at h
+      split at h
+      · simp at h
+      · rename_i n hn
+        have hpos := hskip _ _ hn
+        have hl := dropSpace_length s.rest
+        rw [heq] at hl
+        simp only [Prod.mk.injEq, true_and] at h
+        subst h
+        simp only [List.length_drop, List.length_cons] at *
+        omega
+
+example : decodeN (fun _ => some 1) 3 { rest := [0x5d], err := false } =
+    ([DRes.ok, DRes.ok, DRes.ok], { rest := [0x5d], err := false }) := by decide
+example : decode (fun _ => some 1) { rest := [0x20, 0x31], err := false } = (DRes.ok, { rest := [], err := false }) := by decide
+
+-- non-vacuity
+example : bracketed 0 [SOp.save, SOp.save, SOp.load, SOp.drop2] = true := by decide
+example : run encM encS 0 [SOp.save, SOp.save, SOp.load, SOp.drop2] = SRes.ok 0 := by decide
+example : run encM encS 0 [SOp.drop] = SRes.oob := by decide
+example : decDescription 100 50 = Fmt.ok 34 16 66 15 := by decide
+example : astDescription 2 40 = Fmt.panic := by decide
+example : mismatchFmt 20 3 = Fmt.ok 0 3 20 16 := by decide
 
 end SonicSpec.Props.C07
